@@ -257,8 +257,22 @@ def run_graph_part(ctx):
     ctx.violations[:] = [best[x] if isinstance(x, str) else x for x in order]
 
 
+def prime(files=True):
+    """Load every module the shards use before forking / drawing (Hypothesis derives constants from the local modules
+    in sys.modules, so the module set must be the same in every worker)."""
+    tree.activate_view()
+    run_queries([[1], [0, 2], []], [0, 2, 1])
+    if files:
+        try:
+            from checks import c46_files
+        except ImportError:
+            return
+        c46_files._children()          # imports Cython.Build + the compiler and compiles a one-line module once
+
+
 def run(ctx):
     parts = os.environ.get("VERIF_C46_PARTS", "graph,files")       # development aid; both parts by default
+    prime("files" in parts)
     if "graph" in parts:
         run_graph_part(ctx)
     rule = ("graph level: (G1) exhaustive - all digraphs on <= 4 nodes x asc/desc successor order x all n! orders of "
@@ -282,7 +296,7 @@ def run(ctx):
 
 
 def replay(ctx, case):
-    tree.activate_view()
+    prime(case.get("kind") != "graph")
     if case.get("kind") == "graph":
         r = run_queries(case["succ"], case["queries"])
         if r is None:
